@@ -114,6 +114,25 @@ Section Defs.
     | _, _ => True
     end.
 
+  (* Adam / RMSprop / Adagrad in the coordinates given by the bases Qs: rotate (only if a basis exists; ignored modes
+     are not touched), divide by (V / bias_correction2 + epsilon)^(1/root), rotate back *)
+  Definition rot_into_basis (c : cfg (F:=F)) (dims : list nat) (Qs : list lmat) (x : list F) : list F :=
+    if soap_basis_exists Qs then mode_products dims (sel_mats false (dims_selector c (length dims)) Qs) x else x.
+  Definition rot_back_from_basis (c : cfg (F:=F)) (dims : list nat) (Qs : list lmat) (x : list F) : list F :=
+    if soap_basis_exists Qs then mode_products dims (sel_mats true (dims_selector c (length dims)) Qs) x else x.
+  Definition adam_direction_in_basis (c : cfg (F:=F)) (dims : list nat) (bc2 : F) (Qs : list lmat) (V ghat : list F) : list F :=
+    let e := fdiv Op (f1 Op) (of_Z Op (root_of c (length dims))) in
+    rot_back_from_basis c dims Qs
+      (map2 (fun xi vi => fdiv Op xi (fpow Op (fadd Op (fdiv Op vi bc2) (c_eps c)) e)) (rot_into_basis c dims Qs ghat) V).
+
+  (* well-formed SOAP state of a block of shape [dims]: one d_k x d_k factor and basis per preconditioned mode, and either no
+     basis yet (nothing is rotated) or every basis has orthonormal rows *)
+  Definition soap_inv (c : cfg (F:=F)) (dims : list nat) (st : bstate (F:=F)) : Prop :=
+    let sel := dims_selector c (length dims) in
+    mats_fit sel dims (s_factors st) /\ mats_fit sel dims (s_inv st)
+    /\ length (s_isdiag st) = length (s_factors st) /\ length (s_coreig st) = numel dims
+    /\ (soap_basis_exists (s_inv st) = false \/ all_fit rows_orthonormal sel dims (s_inv st)).
+
   (* ---------------------------------------------------------------- 3. oracle view of a refresh *)
   (* the answers a function [eigvecs A estimate is_diagonal] gives to the queries of one SOAP refresh *)
   Fixpoint oracle_answers (eigvecs : lmat -> lmat -> bool -> lmat) (fs invs : list lmat) (dg : list bool) : list lmat :=
@@ -126,6 +145,13 @@ Section Defs.
     | Fk :: fs', Ik :: invs', d :: dg' => mkQ Fk zero zero (d && check_diagonal Op Fk) Ik :: soap_queries fs' invs' dg'
     | _, _, _ => []
     end.
+
+  (* the state of a block after one step whose refresh (if any) is answered by the oracle function [eigvecs] *)
+  Definition soap_state_step (eigvecs : lmat -> lmat -> bool -> lmat) (c : cfg (F:=F)) (dims : list nat)
+             (st : bstate (F:=F)) (i : Z * hints (F:=F) * list F * list F) : bstate (F:=F) :=
+    let '(t, h, w, g0) := i in
+    let fs := update_factors Op c dims (l2_grad Op c w g0) (s_factors st) in
+    snd (fst (block_step Op c t h dims (oracle_answers eigvecs fs (s_inv st) (s_isdiag st)) w st g0)).
 End Defs.
 
 (* ---------------------------------------------------------------- 4. dtype tags of a basis refresh *)
